@@ -114,6 +114,11 @@ type fsScenario struct {
 	// ConnFailAt: the n-th connectivity check of a new channel handler fails (the MQ is unreachable for a moment); the
 	// check runs under the channel manager's lock, so it is a scripted answer, not a scheduling point
 	ConnFailAt int
+	// EagerSource: deliveries are the default choice (the source is ahead of the writer: packs queue up in the channel
+	// buffers); EarlyResume: a manually paused task may be resumed at any decision point (one deviation), not only at
+	// a quiescent point
+	EagerSource bool
+	EarlyResume bool
 	// MaxMsgKB: the batcher's size threshold in KB (0 = default, far above everything the scenarios send)
 	MaxMsgKB int
 	// Gen: member of a generated family (sharded by scenario, not by subtree)
@@ -700,6 +705,9 @@ func (s fsMQSched) Point(key, label string, free bool) {
 	// of every internal step free and the space explodes. Arrival order is still free whenever the running
 	// goroutine has blocked (nothing is "current"), i.e. at every moment the pipeline has drained.
 	free = false
+	if s.r.sc.EagerSource && strings.HasPrefix(key, "stream:") {
+		key = "a-" + key // (sorts before every other role: taken first)
+	}
 	s.r.ctl.Point(fmt.Sprintf("i%d:%s", s.inc.n, key), label, free)
 	s.inc.fence()
 }
@@ -911,6 +919,7 @@ func (r *fsRun) actions() []sched.Action {
 		if st.State == meta.TaskStateRunning && r.pausesLeft > 0 {
 			out = append(out, sched.Action{Label: "pause:" + id, Cost: 1, Do: func() {
 				r.pausesLeft--
+				r.paused[id] = true
 				r.resumeBusy = true
 				inc := r.cur
 				r.ev(fsEvent{Inc: inc.n, Kind: "pause", Key: id})
